@@ -46,8 +46,18 @@ Record scase := mkscase {
   s_abs : option (list (path * choice));   (* the abstract selections (shallowest first) the passed form renders; None = malformed *)
   s_obs : res value;                       (* OBSERVED result *)
   s_input_unchanged : bool;                (* OBSERVED: obj equals its deep copy taken before the call *)
-  s_unflat : sdict                         (* OBSERVED: _unflatten_selection_dict(selections, "__key__", recursive=False) *)
+  s_unflat : sdict;                        (* OBSERVED: _unflatten_selection_dict(selections, "__key__", recursive=False) *)
+  s_anns : list (string * string * ann)    (* the annotation the generator WROTE for (class, field) *)
 }.
+
+(* the has-a-dataclass / is-Optional columns of the observed tables are what the regenerated helpers compute from the
+   annotation that was written *)
+Definition anns_ok (T : tables) (l : list (string * string * ann)) : bool :=
+  forallb (fun cfa => match meta_of (t_meta T) (fst (fst cfa)) (snd (fst cfa)) with
+                      | Some m => Bool.eqb (contains_dc_gen (snd cfa)) (m_has_dc m)
+                                  && Bool.eqb (is_optional_gen (snd cfa)) (m_optional m)
+                      | None => false
+                      end) l.
 
 Fixpoint sel_eqb (a b : sel) : bool :=
   match a, b with
@@ -65,7 +75,8 @@ Definition FUEL : nat := 64.   (* selection paths are at most 4 long; every recu
 Definition s_in_scope (c : scase) : bool := wf_obj c.(s_obj).
 Definition s_model_ok (c : scase) : bool :=
   res_eqb value_eqb (rsub_gen c.(s_tables) FUEL c.(s_obj) c.(s_sel)) c.(s_obs)
-  && match c.(s_sel) with Some d => sdict_eqb (unflatten_selection_gen d) c.(s_unflat) | None => true end.
+  && match c.(s_sel) with Some d => sdict_eqb (unflatten_selection_gen d) c.(s_unflat) | None => true end
+  && anns_ok c.(s_tables) c.(s_anns).
 Definition s_spec_ok (c : scase) : bool :=
   c.(s_input_unchanged)
   && match c.(s_abs) with Some a => sub_check c.(s_tables) a c.(s_obj) c.(s_obs) | None => true end.
